@@ -20,7 +20,8 @@ LEVEL_TEXT = ("Lean 4 theorems: the class decision table (annotation precedence 
               "foreign-class event is processed exactly like a delete of the key (same state, same changes, same problems) in every settled "
               "state, hence a history and its projection without foreign-class events are indistinguishable (non_interference); a foreign-class "
               "object is never stored, so it never claims a host, listener or path; when a served resource's class changes away its hosts pass "
-              "to the next claimant in the same batch (consequence of C01's rebuild invariant).")
+              "to the next claimant in the same batch (consequence of C01's rebuild invariant)."
+              ' Source tie: LoadBalancerController.HasCorrectIngressClass is translated from /repo on every run (type switch -> match) and proved equal to the decision table kind by kind (Props/TieClass.lean).')
 LEVEL_NOTE = "Assurance = weaker of (theorems about the model, paired-run oracle on the real Configuration + reporting functions, correspondence)."
 TECHNIQUE = "Lean 4 proof (decision table; foreign event = delete, by quiescence) + paired-history oracle and model/implementation correspondence"
 
